@@ -12,7 +12,7 @@
 #endif
 typedef int bl_cname;
 typedef long bl_objid;
-typedef size_t bl_rit;     /* reverse iterator over the scope stack: k means "element k-1"; 0 is rend() */
+typedef size_t bl_rit;     /* iterator over the scope stack: k means "element k-1"; reverse: rbegin() is size, rend() is 0, ++ subtracts; forward: begin() is 1, end() is size+1 */
 typedef int bl_mit;        /* iterator into one scope map: entry id, BL_MAP_END when absent */
 #define BL_MAP_END (-1)
 #endif
